@@ -597,8 +597,9 @@ func (o *ovsdbClient) UpdateEndpoints(endpoints []string) {
 // SetOption sets a new value for an option.
 // It may only be called when the client is not connected
 func (o *ovsdbClient) SetOption(opt Option) error {
-	o.rpcMutex.RLock()
-	defer o.rpcMutex.RUnlock()
+	// options are read under the read lock by every call
+	o.rpcMutex.Lock()
+	defer o.rpcMutex.Unlock()
 	if o.rpcClient != nil {
 		return fmt.Errorf("cannot set option when client is connected")
 	}
@@ -1355,6 +1356,8 @@ func (o *ovsdbClient) handleDisconnectNotification() {
 	o.rpcMutex.Lock()
 	if o.options.reconnect && !o.shutdown {
 		o.rpcClient = nil
+		// SetOption is allowed from now on: take what is needed under the lock
+		timeout, reconnectBackoff := o.options.timeout, o.options.backoff
 		o.rpcMutex.Unlock()
 		suppressionCounter := 1
 		connect := func() error {
@@ -1365,7 +1368,7 @@ func (o *ovsdbClient) handleDisconnectNotification() {
 				db.deferUpdates = true
 				db.cacheMutex.Unlock()
 			}
-			ctx, cancel := context.WithTimeout(context.Background(), o.options.timeout)
+			ctx, cancel := context.WithTimeout(context.Background(), timeout)
 			defer cancel()
 			err := o.connect(ctx, true)
 			if err != nil {
@@ -1380,7 +1383,7 @@ func (o *ovsdbClient) handleDisconnectNotification() {
 			return err
 		}
 		o.logger.V(3).Info("connection lost, reconnecting", "endpoint", o.endpoints[0].address)
-		err := backoff.Retry(connect, o.options.backoff)
+		err := backoff.Retry(connect, reconnectBackoff)
 		if err != nil {
 			// TODO: We should look at passing this back to the
 			// caller to handle
